@@ -25,7 +25,8 @@ type part struct {
 	Budget map[string]time.Duration // tier -> wall budget for this part
 	BatchN int                      // >0: depth-0 enumeration, instances dispatched in batches of BatchN
 	Inst   map[string]string        // tier -> instance set name passed to the scenario (default: the tier)
-	Test   string                   // enum: test function in the worker binary
+	Test   string                   // enum: test function
+	Bin    string                   // enum: test binary in the scratch dir (default: the worker)
 	Env    []string
 }
 
@@ -454,7 +455,11 @@ func firstPanicLine(s string) string {
 func runEnum(b *built, prop string, p part, tier string) (partReport, []violation, []any, error) {
 	rep := partReport{Name: p.Name, Kind: "enum"}
 	t0 := time.Now()
-	cmd := exec.Command(b.worker, "-test.run", "^"+p.Test+"$", "-test.timeout", "0")
+	bin := b.worker
+	if p.Bin != "" {
+		bin = filepath.Join(b.dir, p.Bin)
+	}
+	cmd := exec.Command(bin, "-test.run", "^"+p.Test+"$", "-test.timeout", "0")
 	tmp := filepath.Join(b.dir, "tmp")
 	os.MkdirAll(tmp, 0o755)
 	cmd.Env = append(os.Environ(), "VERIF_ENUM="+tier, "TMPDIR="+tmp, "VERIF_SCRATCH="+b.dir, "VERIF_SEED="+strconv.Itoa(seed()))
